@@ -4,6 +4,7 @@
 package chain
 
 import (
+	"io"
 	"github.com/ucan-wg/go-ucan/did"
 	varint "github.com/multiformats/go-varint"
 	mbase "github.com/multiformats/go-multibase"
@@ -65,6 +66,10 @@ type Link struct {
 	// decoder lets through (the Unix epoch, year 1, negative, far future).
 	RawExp *int64 `json:"raw_exp,omitempty"`
 	RawNbf *int64 `json:"raw_nbf,omitempty"`
+	// Reseal > 0: after the delegation has been sealed and filed in the store under the CID of that sealing, its
+	// owner seals the same object again (to send it to someone else, to write it to a container). Sealing is a
+	// read: the object in the store is still the delegation that the invocation's proof CID names.
+	Reseal int `json:"reseal,omitempty"`
 }
 
 // ErrUndecodable: a hand-sealed token of the case is refused by the decoder (that is the decoder's job).
@@ -489,6 +494,16 @@ func Build(c Case) (*Built, error) {
 		}
 		b.Cids = append(b.Cids, id)
 		b.Dlgs = append(b.Dlgs, t)
+		for k := 0; k < l.Reseal && l.Iss < 100; k++ {
+			switch k % 3 {
+			case 0:
+				_, _, _ = t.ToSealed(Prin(l.Iss).Priv)
+			case 1:
+				_, _ = t.ToDagJson(Prin(l.Iss).Priv)
+			default:
+				_, _ = t.ToSealedWriter(io.Discard, Prin(l.Iss).Priv)
+			}
+		}
 		if l.LoaderErr {
 			ld.errs[id] = true
 		}
